@@ -886,9 +886,24 @@ def extract_arm(src, spec, unit_rules):
     body = arm["body"]
     item = dict(fn)
     item["scope"] = tuple(body)
-    for n in nodes_of(item):
-        if n["kind"] in ("continue", "break"):
-            # allowed only inside a loop that is itself inside the arm
+    ed = Edits()
+    control = bool(spec.get("control"))
+    # control transfer (R16b): `ip = E; continue;` of the dispatch loop becomes
+    # `return Ok(VxNext::Jump(E));`, and falling out of the arm `Ok(VxNext::Next)` — the function's
+    # result then says exactly what the enclosing loop does next (`ip = E` vs `ip += 1`)
+    scoped = nodes_of(item)
+    jumps = []
+    for n in scoped:
+        if n["kind"] == "assign" and n["left_text"] == "ip":
+            nxt = [m for m in scoped if m["kind"] == "continue" and m["range"][0] >= n["range"][1]]
+            nxt.sort(key=lambda m: m["range"][0])
+            between = src.text(n["range"][1], nxt[0]["range"][0]).strip() if nxt else None
+            if not nxt or between != ";":
+                raise Unsupported(f"arm `{spec['arm']}`: `ip = ..` not directly followed by `continue`")
+            jumps.append((n, nxt[0]))
+    used_cont = {id(c) for _, c in jumps}
+    for n in scoped:
+        if n["kind"] in ("continue", "break") and id(n) not in used_cont:
             ok = False
             for an in ancestors(item, n):
                 if an["kind"] == "loop" and inside(an, body):
@@ -896,9 +911,13 @@ def extract_arm(src, spec, unit_rules):
                     break
             if not ok:
                 raise Unsupported(f"arm `{spec['arm']}` transfers control (continue/break)")
-        if n["kind"] == "assign" and n["left_text"] == "ip":
-            raise Unsupported(f"arm `{spec['arm']}` assigns ip")
-    ed = Edits()
+    if jumps and not control:
+        raise Unsupported(f"arm `{spec['arm']}` assigns ip (declare `control = true`)")
+    for a_, c_ in jumps:
+        e = c_["range"][1]
+        if src.data[e:e + 1] == b";":
+            e += 1
+        ed.replace(a_["range"][0], e, f"return Ok(VxNext::Jump({src.text(*a_['right'])}));", "R16", subsume=True)
     for (s0, e0) in src.attrs:
         if body[0] <= s0 and e0 <= body[1]:
             t = src.text(s0, e0)
@@ -968,12 +987,14 @@ def extract_arm(src, spec, unit_rules):
         inner = ed.apply(src, body[0], body[1]) + ";"
     contract = clause("requires", spec.get("requires")) + clause("ensures", spec.get("ensures"))
     ret = spec.get("ret", "r")
+    rty = "TeraResult<VxNext>" if control else "TeraResult<()>"
+    tail = "    Ok(VxNext::Next)\n}\n" if control else "    Ok(())\n}\n"
     text = (
-        f"pub fn {spec['name']}({spec['params']}) -> ({ret}: TeraResult<()>)" + contract + "\n{\n"
+        f"pub fn {spec['name']}({spec['params']}) -> ({ret}: {rty})" + contract + "\n{\n"
         + (spec.get("body_start", "").strip() + "\n" if spec.get("body_start") else "")
         + inner + "\n"
         + (spec.get("body_end", "").strip() + "\n" if spec.get("body_end") else "")
-        + "    Ok(())\n}\n"
+        + tail
     )
     raw = src.text(body[0], body[1])
     return {
